@@ -1461,11 +1461,16 @@ pub fn around_every_limit_script(r: &mut Rng, index: u64, _tier: Tier) -> (CaseC
     let mut s = vec![connect_with(SpMode::Force(false), AckMode::Immediate, vec![Prop::MaximumPacketSize(limit as u32)])];
     if let Some(rl) = rl_for(target) {
         let kind = r.below(5);
+        // one publish in three carries a property block of 128 bytes or more (its own length
+        // field then takes two bytes)
+        let vlen = r.range(122, 200);
+        let long_props = r.chance(1, 3) && rl > vlen + 20;
         let req = match kind {
             0 | 1 | 2 => {
                 let qos = kind as u8;
-                let fixed = 2 + 1 + if qos > 0 { 2 } else { 0 } + 1;
-                if rl < fixed { None } else { Some(Step::Publish(PubSpec { topic: "t".into(), payload: PayloadSpec::Fill { len: rl - fixed, tag: 0xE14, ascii: false }, qos, retain: false, props: vec![], correlate: None, cancel_at: None })) }
+                let (props, plen) = if long_props { (vec![Prop::UserProperty("k".into(), "v".repeat(vlen))], 2 + 1 + 2 + 1 + 2 + vlen) } else { (vec![], 1) };
+                let fixed = 2 + 1 + if qos > 0 { 2 } else { 0 } + plen;
+                if rl < fixed { None } else { Some(Step::Publish(PubSpec { topic: "t".into(), payload: PayloadSpec::Fill { len: rl - fixed, tag: 0xE14, ascii: false }, qos, retain: false, props, correlate: None, cancel_at: None })) }
             }
             3 => {
                 if rl < 2 + 1 + 2 + 1 + 1 || rl - 6 > 65_535 { None } else { Some(Step::Subscribe(SubSpec { filters: vec![FilterSpec { filter: "f".repeat(rl - 6), max_qos: 1, no_local: false, rap: false, rh: 0 }], props: vec![], cancel_at: None })) }
@@ -1516,6 +1521,7 @@ pub fn pooled_script(r: &mut Rng, index: u64, tier: Tier) -> (CaseCfg, Vec<Step>
         refused_request_while_half_read_script,
         redelivery_under_a_tiny_limit_script,
         connect_at_the_edge_of_the_arena_script,
+        arena_above_64k_script,
     ];
     let k = (index as usize) % (POOL.len() * 4 + 1);
     if k == POOL.len() * 4 {
@@ -1782,5 +1788,41 @@ pub fn connect_at_the_edge_of_the_arena_script(r: &mut Rng, _index: u64, _tier: 
     s.push(pubq(1, "edge/after", 3, 2));
     s.push(poll0());
     s.push(poll0());
+    (cfg, s)
+}
+
+
+/// Shared (C01, C02, C17): a transmit arena well above 64 KiB with more than 64 KiB of
+/// unacknowledged packets in it (each below 64 KiB): the later ones live at arena offsets that do
+/// not fit sixteen bits.  Acknowledged in any order, replayed on a resumed connection.
+pub fn arena_above_64k_script(r: &mut Rng, _index: u64, _tier: Tier) -> (CaseCfg, Vec<Step>) {
+    let cfg = CaseCfg { rx: 128, tx: *r.pick(&[150_000usize, 300_000]), keepalive: 0, ..CaseCfg::default() };
+    let mut s = vec![connect_with(SpMode::Force(false), AckMode::Hold, vec![])];
+    let n = r.range(3, 7);
+    for k in 0..n {
+        let len = r.range(12_000, 40_000);
+        s.push(match r.below(4) {
+            0 => pubq(2, "big/two", 100 + k as u32, len),
+            1 => Step::Subscribe(SubSpec { filters: vec![FilterSpec { filter: "f".repeat(len.min(30_000)), max_qos: 1, no_local: false, rap: false, rh: 0 }], props: vec![], cancel_at: None }),
+            _ => pubq(1, "big/one", 100 + k as u32, len),
+        });
+    }
+    s.push(poll0());
+    // a few acknowledgements, from the middle of the table
+    if r.chance(1, 2) {
+        s.push(Step::Broker(BrokerAct::Release { n: r.range(1, 2), order: *r.pick(&[Order::Fifo, Order::Lifo]) }));
+        s.push(poll0());
+        s.push(poll0());
+        s.push(pubq(1, "big/after", 200, r.range(10_000, 30_000)));
+    }
+    s.push(Step::DropConn);
+    s.push(connect_with(SpMode::Force(true), AckMode::Hold, vec![]));
+    for _ in 0..n + 3 {
+        s.push(poll0());
+    }
+    s.push(Step::Broker(BrokerAct::Release { n: 99, order: Order::Fifo }));
+    for _ in 0..2 * n + 4 {
+        s.push(poll0());
+    }
     (cfg, s)
 }
